@@ -356,8 +356,9 @@ def seaweed(db, rep):
                 wets = sorted([v for v in co if v.family == "seaweed_wet_on_farm"], key=lambda v: (v.idx.m, v.idx.n, v.idx.c))
                 if len(wets) == 2:
                     F = (Rat.const(0) - co[wets[0]]) / co[wets[1]]
+            this_month = set(db.spec(t, 'tc["growth_rates_monthly"][month]').atoms())
             okF = F is not None and not F.vars() and all(
-                getattr(a, "path", None) == ("tc", "growth_rates_monthly", "[]") for a in F.atoms())
+                getattr(a, "path", None) == ("tc", "growth_rates_monthly", "[]") and a in this_month for a in F.atoms())
             rep.check(okF, rule, f"Optimizer.add_seaweed_to_model[growth-factor|{env}]",
                       "the factor multiplying last month's seaweed biomass is not a function of this month's supplied growth value only",
                       loc=OPT, detail=str(F))
